@@ -2,4 +2,4 @@
 #![allow(unused, static_mut_refs, clippy::all)]
 pub mod common;
 pub mod seed;
-
+pub mod c05k;
